@@ -242,7 +242,7 @@ def run_inputs(jobs: list[dict], workers: int = 8) -> tuple[list[dict], str]:
                 if w is None:
                     w = _Worker()
                     files.append(w.file)
-                r = w.run({k: j[k] for k in ("id", "src", "canary_file", "canary_global") if k in j})
+                r = w.run({k: j[k] for k in ("id", "src", "canary_file", "canary_global", "markers") if k in j})
                 if r.pop("dead", False):
                     w.kill()
                     w = None
